@@ -125,6 +125,8 @@ struct FaultPlan {
   int64_t crash_at = -1;           // die before executing syscall #k
   int64_t torn_at = -1;            // k-th syscall, if a write: keep a prefix, then die
   uint32_t torn_keep = 0;          // bytes kept = torn_keep % len
+  int64_t torn_write_nth = -1;     // alternative addressing: the n-th file write (0-based) is torn
+  int64_t crash_write_nth = -1;    // die before the n-th file write
   bool orphans_finish = false;     // children of a crashed ninja run to completion
   std::vector<std::pair<int64_t, int>> signals;   // (syscall #, signo) made pending
   std::map<int64_t, int> io_errors;                // syscall # -> errno, if failable
